@@ -2,6 +2,8 @@ package props
 
 import (
 	"bufio"
+	"bytes"
+	"fmt"
 	"io"
 	"os"
 	"path"
@@ -537,7 +539,18 @@ func genDebControlModel(t *rapid.T) (string, Exp, []string, string) {
 		b.scalar("Homepage", "https://example.org/")
 		e.Scalars["Homepage"] = "https://example.org/"
 	}
-	e.Scalars["Description"] = genDescription(t, b)
+	if rapid.IntRange(0, 11).Draw(t, "longdesc") == 0 {
+		// a control file larger than one read of any decompressor (32 KiB and more)
+		n := rapid.IntRange(500, 1100).Draw(t, "longdescN")
+		rest := make([]string, 0, n)
+		for i := 0; i < n; i++ {
+			rest = append(rest, fmt.Sprintf("line %04d of a very long description, lorem ipsum dolor sit amet", i))
+		}
+		e.Scalars["Description"] = b.multi("Description", "long", rest)
+		b.feats["control-over-32KiB"] = true
+	} else {
+		e.Scalars["Description"] = genDescription(t, b)
+	}
 	genUnknownFields(t, b, &e, "unk")
 	return b.sb.String(), e, b.featList(), srcName
 }
@@ -785,6 +798,23 @@ func checkTypedDoc(c TypedDocCase, r *Recorder) error {
 		if w, ok := c.Acc["SourceName"]; ok && dc.SourceName() != w[0] {
 			return errf("deb.Control.SourceName() = %q, want %q", dc.SourceName(), c.Acc["SourceName"][0])
 		}
+		// the same paragraph where it lives: inside the control member of a .deb
+		for _, codec := range []string{"", "gz"} {
+			raw, _, err := buildDeb(DebModel{DebianBinary: "2.0\n", CtlCodec: codec, CtlFiles: []TarFile{{Name: "./md5sums", Type: "reg", Content: []byte("x\n")}, {Name: "./control", Type: "reg", Content: []byte(c.Text)}},
+				DataFiles: []TarFile{{Name: "./usr/", Type: "dir"}}})
+			if err != nil {
+				return errf("HARNESS: cannot build package: %v", err)
+			}
+			d, err := deb.Load(bytes.NewReader(raw), "x.deb")
+			if err != nil {
+				return errf("deb.Load of a package carrying this control file (control.tar%s, %d bytes of control text) failed: %v", map[string]string{"": "", "gz": ".gz"}[codec], len(c.Text), err)
+			}
+			err = compareStruct(reflect.ValueOf(d.Control), c.Exps[0], "deb.Load(...).Control")
+			d.Close()
+			if err != nil {
+				return errf("%v (control.tar%s, control text of %d bytes: %q)", err, map[string]string{"": "", "gz": ".gz"}[codec], len(c.Text), clip([]byte(c.Text)))
+			}
+		}
 	default:
 		return errf("HARNESS: unknown kind %q", c.Kind)
 	}
@@ -793,7 +823,7 @@ func checkTypedDoc(c TypedDocCase, r *Recorder) error {
 
 var specC10 = Register(&Spec[TypedDocCase]{
 	Prop: "C10", Name: "typed",
-	Rule: "six document kinds rendered from a field model in the layout the Debian tools emit: .dsc (Binary 'a, b, c' single-line or folded, Architecture list, Uploaders, Build-Depends* single-line / folded / wrap-and-sort, Package-List, Checksums-Sha1/-Sha256, Files), .changes (space-separated Binary, Closes, multi-line Description and Changes with ' .', 5-column Files), debian/control (source paragraph + 1..4 binary paragraphs, folded Uploaders and dependency fields with substvars, Essential, multi-line Description), Packages (Source 'name (ver)', Installed-Size, folded Tag, Build-Ids, dependency accessors), Sources (folded Binary, Standards-Version, Vcs-*, Directory, accessors) and DEBIAN/control; unknown X- fields sprinkled in; the bufio.Reader handed to the Parse* functions has a generated size 16..65536 and reads from a plain, one-byte, half or data-with-EOF reader. Oracle: every struct field whose Debian field is in the model equals the model (scalars verbatim / reader convention, versions by parts, architectures by triple, dependencies against the model AST, comma/space lists as trimmed elements, file lists as (algorithm, hash, size, name[, section, priority])), accessors agree with the model. Non-trivial: a folded field, >= 2 binaries, >= 2 files or >= 2 paragraphs; distinct by (kind, text, buffer size).",
+	Rule:  "six document kinds rendered from a field model in the layout the Debian tools emit: .dsc (Binary 'a, b, c' single-line or folded, Architecture list, Uploaders, Build-Depends* single-line / folded / wrap-and-sort, Package-List, Checksums-Sha1/-Sha256, Files), .changes (space-separated Binary, Closes, multi-line Description and Changes with ' .', 5-column Files), debian/control (source paragraph + 1..4 binary paragraphs, folded Uploaders and dependency fields with substvars, Essential, multi-line Description), Packages (Source 'name (ver)', Installed-Size, folded Tag, Build-Ids, dependency accessors), Sources (folded Binary, Standards-Version, Vcs-*, Directory, accessors) and DEBIAN/control (decoded from text and, packed into control.tar / control.tar.gz of a minimal .deb, through deb.Load; one in twelve with a description that takes the control file beyond 32 KiB); unknown X- fields sprinkled in; the bufio.Reader handed to the Parse* functions has a generated size 16..65536 and reads from a plain, one-byte, half or data-with-EOF reader. Oracle: every struct field whose Debian field is in the model equals the model (scalars verbatim / reader convention, versions by parts, architectures by triple, dependencies against the model AST, comma/space lists as trimmed elements, file lists as (algorithm, hash, size, name[, section, priority])), accessors agree with the model. Non-trivial: a folded field, >= 2 binaries, >= 2 files or >= 2 paragraphs; distinct by (kind, text, buffer size).",
 	Check: checkTypedDoc,
 })
 
@@ -933,7 +963,7 @@ func padTyped(c TypedDocCase, pad int) TypedDocCase {
 
 var specC10Edge = Register(&Spec[TypedDocCase]{
 	Prop: "C10", Name: "bufferedge",
-	Rule: "bounded-exhaustive over buffer alignment: a few generated Packages, Sources and debian/control documents (several paragraphs) get an 'X-Pad' field of n 'x' as first line, n chosen so that each line boundary of the document in turn lands at 4096-1, 4096, 4096+1, 8192-1, 8192, 8192+1 bytes from the start. Oracle as C10/typed (plus X-Pad itself in the first paragraph's raw values). Non-trivial: every case; distinct by text.",
+	Rule:  "bounded-exhaustive over buffer alignment: a few generated Packages, Sources and debian/control documents (several paragraphs) get an 'X-Pad' field of n 'x' as first line, n chosen so that each line boundary of the document in turn lands at 4096-1, 4096, 4096+1, 8192-1, 8192, 8192+1 bytes from the start. Oracle as C10/typed (plus X-Pad itself in the first paragraph's raw values). Non-trivial: every case; distinct by text.",
 	Check: checkTypedDoc,
 })
 
